@@ -50,8 +50,8 @@ def main(tier):
                       "no yield hook is compiled into the library: schedule diversity comes from seeded sleeps/yields between operations and from repetition"]
     seed = vlib.seed()
     nproc = vlib.NCPU
-    per = 12 if tier == "quick" else 200
-    reps = 4 if tier == "quick" else 12
+    per = 12 if tier == "quick" else 100
+    reps = 4 if tier == "quick" else 10
     from concurrent.futures import ThreadPoolExecutor
     with ThreadPoolExecutor(max_workers=nproc) as ex:
         futs = [ex.submit(run_slice, bins["stress_tsan"], seed, i * per, per, reps, 3000) for i in range(nproc)]
